@@ -125,6 +125,9 @@ type primitivizer struct {
 	// objPathCache caches the results of objectPath() to avoid redundant expensive lookups
 	// for the same types.Object.
 	objPathCache map[types.Object]objectpath.Path
+	// unexportedInterfaceMethods caches, for a package, the names of the unexported methods of the
+	// interface types declared in it (see visibleDownstream).
+	unexportedInterfaceMethods map[*types.Package]map[string]bool
 }
 
 // newPrimitivizer returns a new and properly-initialized primitivizer.
@@ -172,6 +175,8 @@ func newPrimitivizer(pass *analysishelper.EnhancedPass) *primitivizer {
 		upstreamObjPositions: upstreamObjPositions,
 		objPathEncoder:       &objectpath.Encoder{},
 		objPathCache:         make(map[types.Object]objectpath.Path),
+
+		unexportedInterfaceMethods: make(map[*types.Package]map[string]bool),
 	}
 }
 
@@ -222,7 +227,7 @@ func (p *primitivizer) site(key annotation.Key, isDeep bool) primitiveSite {
 		PkgPath:    pkgRepr,
 		Repr:       key.String(),
 		IsDeep:     isDeep,
-		Exported:   visibleDownstream(obj),
+		Exported:   p.visibleDownstream(obj),
 		ObjectPath: objPath,
 		Position:   position,
 	}
@@ -230,11 +235,20 @@ func (p *primitivizer) site(key annotation.Key, isDeep bool) primitiveSite {
 
 // visibleDownstream returns true if downstream packages can create constraints on the sites of
 // the given object, i.e., if the sites of the object must be exported. Besides the exported
-// objects, these are the non-exported package-level named types: values of such a type can be
-// handed to other packages (e.g., as the result of an exported function), and their deep
-// nilability is a site of the type itself (this is also why non-exported package-level types do
-// have an object path, unlike any other non-exported object).
-func visibleDownstream(obj types.Object) bool {
+// objects, these are
+//   - the non-exported package-level named types: values of such a type can be handed to other
+//     packages (e.g., as the result of an exported function), and their deep nilability is a site
+//     of the type itself (this is also why non-exported package-level types do have an object
+//     path);
+//   - the unexported methods that take part in dynamic dispatch, i.e., the methods of an interface
+//     type, and the methods with the name of an unexported method of an interface type declared
+//     (at the package level) in the same package. Note that an unexported method of an interface
+//     can only be implemented by a method declared in the same package. Such a method cannot be
+//     named by other packages, but it is still reachable from them: a downstream package can
+//     convert a value of the implementing type to the interface type (e.g., by passing `p.S{}` to
+//     `p.Use(i p.I)`, where `p.I` is `interface{ m() *int }`), which links the sites of the two
+//     methods `p.S.m` and `p.I.m` to each other.
+func (p *primitivizer) visibleDownstream(obj types.Object) bool {
 	if obj.Exported() {
 		return true
 	}
@@ -242,7 +256,38 @@ func visibleDownstream(obj types.Object) bool {
 		pkg := obj.Pkg()
 		return pkg != nil && pkg.Scope().Lookup(obj.Name()) == obj
 	}
-	return false
+	fn, ok := obj.(*types.Func)
+	if !ok || fn.Pkg() == nil {
+		return false
+	}
+	sig, ok := fn.Type().(*types.Signature)
+	if !ok || sig.Recv() == nil {
+		return false
+	}
+	if types.IsInterface(sig.Recv().Type()) {
+		return true
+	}
+
+	names, ok := p.unexportedInterfaceMethods[fn.Pkg()]
+	if !ok {
+		names = make(map[string]bool)
+		scope := fn.Pkg().Scope()
+		for _, name := range scope.Names() {
+			tname, ok := scope.Lookup(name).(*types.TypeName)
+			if !ok {
+				continue
+			}
+			if iface, ok := tname.Type().Underlying().(*types.Interface); ok {
+				for i := 0; i < iface.NumMethods(); i++ {
+					if m := iface.Method(i); !m.Exported() && m.Pkg() == fn.Pkg() {
+						names[m.Name()] = true
+					}
+				}
+			}
+		}
+		p.unexportedInterfaceMethods[fn.Pkg()] = names
+	}
+	return names[fn.Name()]
 }
 
 // objectPath returns the objectpath.Path for the given object, using fast paths where possible
@@ -266,7 +311,7 @@ func (p *primitivizer) objectPath(obj types.Object) objectpath.Path {
 
 	// Fast path: unexported non-types never have a valid object path
 	_, isTypeName := obj.(*types.TypeName)
-	if !obj.Exported() && !isTypeName {
+	if !p.visibleDownstream(obj) && !isTypeName {
 		p.objPathCache[obj] = ""
 		return ""
 	}
